@@ -1352,9 +1352,10 @@ impl GroupedHashAggregateStream {
                 .spill_state
                 .merging_group_by
                 .group_schema(&self.spill_state.spill_schema)?;
-            if group_schema.fields().len() > 1 {
-                self.group_values = new_group_values(group_schema, &self.group_ordering)?;
-            }
+            // A single nested / dictionary / fixed-size-binary key is also served by the
+            // multi-column collector (see `new_group_values`), so recreate it
+            // unconditionally.
+            self.group_values = new_group_values(group_schema, &self.group_ordering)?;
 
             // Use `OutOfMemoryMode::ReportError` from this point on
             // to ensure we don't spill the spilled data to disk again.
